@@ -495,4 +495,51 @@ H2Judge(h, raised, recorded) ==
      exact |-> TRUE]
 \* whatever could break an HTTP/1.1 header line is also refused by the HTTP/2 rules
 H1UnsafeIsH2Refused(h) == (BadName(h.n) \/ BreaksLine(h.v)) => H2MustRefuse(h)
+-----------------------------------------------------------------------------
+(* 9  Two calls on one client object: a refused request, then an accepted one   *)
+(*                                                                                             *)
+(* The statement is per call, so it also binds the call that FOLLOWS a refused one on the same      *)
+(* pool / PoolManager / connection object.  http.client buffers the request line and every header     *)
+(* line it accepted until endheaders(); a call refused in between leaves that head pending in the       *)
+(* connection object, and neither close() nor the next putrequest() drops it.  The design: the          *)
+(* connection object of a refused call is never used again (the pool discards it), so nothing is          *)
+(* pending when the next call starts.  Named deviations (the set D of the kept-head operators):            *)
+(*   "RefusedRequestConnectionPooled"  (never in the code; TLC must refute it) HTTPConnectionPool.urlopen   *)
+(*        hands the connection of a refused call back to the pool; when it has no open socket the next       *)
+(*        request through it flushes the pending head first: ONE request head made of both requests           *)
+(*   "ConnObjectKeepsRejectedHead"  (recorded finding) the same for a bare HTTPConnection that the caller       *)
+(*        close()s and uses again after a refused request()                                                   *)
+(*   When the pooled connection still has a LIVE socket, the next request on it is refused by http.client        *)
+(*   (CannotSendRequest): a clean request refused - also a failure of the per-call clause.                       *)
+
+RRCP == "RefusedRequestConnectionPooled"
+CKRH == "ConnObjectKeepsRejectedHead"
+\* is caller header i refused?  (putheader raises: illegal name / value, SKIP_HEADER on a header that cannot be skipped)
+HeaderRefused(req, i) == IF req.hdrs[i].skip THEN LowerSeq(req.hdrs[i].n) \notin Skippable
+                         ELSE BadName(req.hdrs[i].n) \/ BreaksLine(req.hdrs[i].v)
+FirstRefusedHeader(req) == IF \E i \in 1..Len(req.hdrs) : HeaderRefused(req, i)
+                           THEN CHOOSE i \in 1..Len(req.hdrs) : HeaderRefused(req, i) /\ \A j \in 1..(i - 1) : ~HeaderRefused(req, j)
+                           ELSE 0
+\* the head lines pending in the connection object after the call was refused: nothing when the method or the target is
+\* refused (before anything is buffered), else the request line, the automatic lines and the caller lines before the refused one
+Residue(level, req) ==
+    IF BadMethod(req.method) \/ BadTarget(level, req) \/ FirstRefusedHeader(req) = 0 THEN <<>>
+    ELSE LET k == FirstRefusedHeader(req)
+             before == [req EXCEPT !.hdrs = SubSeq(req.hdrs, 1, k - 1)]
+         IN <<RequestLine(level, req)>> \o AutoHost(req) \o AutoAE(req) \o FramingLines(req) \o AutoUA(req) \o CallerLines(before)
+KeepsHead(D, level) == (level = "conn" /\ CKRH \in D) \/ (level \in {"pool", "mgr"} /\ RRCP \in D)
+\* the bytes written by the second call: r1 was refused, r2 is sent through the same client object (no open socket)
+SecondCallWire(D, level, r1, r2) ==
+    (IF KeepsHead(D, level) THEN Flatten([i \in 1..Len(Residue(level, r1)) |-> Residue(level, r1)[i] \o CRLF]) ELSE <<>>)
+    \o Serialize(level, r2)
+
+\* invariants over a refused request r1 and the request r2 that follows it
+\* the design: the second call is judged "ok" and its bytes are its own canonical serialisation
+SecondCallUntouched(r1, r2) == LET j == Judge(r2.level, r2, FALSE, SecondCallWire({}, r2.level, r1, r2)) IN j.hard = "ok" /\ j.exact
+\* the refutation: whenever a refused call leaves a head pending, keeping the connection object breaks the per-call clause of call 2
+KeptHeadIsCaught(r1, r2) == Residue(r2.level, r1) # <<>> =>
+    Judge(r2.level, r2, FALSE, SecondCallWire({RRCP, CKRH}, r2.level, r1, r2)).hard # "ok"
+\* a pending head always starts with the refused call's request line
+ResidueShape(r1) == LET rs == Residue(r1.level, r1) IN
+    rs # <<>> => MustRefuse(r1.level, r1) /\ rs[1] = RequestLine(r1.level, r1) /\ ~BadMethod(r1.method)
 =============================================================================
